@@ -61,7 +61,7 @@ def run(tier, replay=None):
         idx = next(i for i, e in enumerate(events) if e["ev"] == "wsub" and e["req"])
         ev2 = json.loads(json.dumps(events[idx:idx + 1]))
         k = sorted(ev2[0]["req"].keys())[0]
-        ev2[0]["req"][k] = [9, 9, 9]
+        ev2[0]["req"][k] = [9, 9, 9] if ev2[0]["req"][k] != [9, 9, 9] else [8]
         pp = os.path.join(C.WORK, "traces", "c11_probe.ndjson")
         C.write_ndjson(pp, ev2)
         m2, t2, _ = C.tlc_trace("Trace_Subset", "Trace_Subset.cfg", pp)
